@@ -18,7 +18,8 @@ pub(crate) struct KErr;
 pub(crate) type KResult<T> = Result<T, KErr>;
 impl From<KErr> for crate::error::Qcow2Error {
     fn from(_: KErr) -> Self {
-        crate::error::Qcow2Error::from(std::io::ErrorKind::Other)
+        // no message formatting (String::new() allocates nothing)
+        crate::error::Qcow2Error::from_desc(String::new())
     }
 }
 
@@ -86,6 +87,8 @@ impl KBuf {
     pub fn split_at_mut(&mut self, mid: usize) -> (KBuf, KBuf) {
         self.split_at(mid)
     }
+    /// `<[u8]>::fill`: content is not modelled by the range shim
+    pub fn fill(&self, _v: u8) {}
 }
 
 /// one recorded environment call
@@ -113,6 +116,7 @@ pub(crate) const K_ALLOC: u8 = 10; // allocate_clusters(count)
 pub(crate) const K_FLUSH_CACHE: u8 = 11; // flush_cache(cache, start key, end key)
 pub(crate) const K_FSYNC: u8 = 12; // call_fsync
 pub(crate) const K_GROW_RT: u8 = 13; // grow_reftable
+pub(crate) const K_TRYALLOC: u8 = 14; // try_alloc_from_rb_slice (off,len = granted run; len 0 = None)
 
 const NOREC: Rec = Rec { kind: K_NONE, entry: 0, off: 0, len: 0, buf_start: 0, flags: 0 };
 
@@ -160,7 +164,34 @@ impl core::ops::Index<usize> for KEntries {
     }
 }
 
+/// stand-in for the L2 slice cache: two adjacent slices (keys base, base+1), each present or not
+pub(crate) struct KCache {
+    pub base: usize,
+    pub s: [Option<KHandle<L2Table>>; 2],
+    pub cached: [bool; 2],
+}
+impl KCache {
+    pub fn empty() -> Self {
+        KCache { base: 0, s: [None, None], cached: [false, false] }
+    }
+    pub fn get(&self, key: usize) -> Option<&KHandle<L2Table>> {
+        if key == self.base && self.cached[0] {
+            self.s[0].as_ref()
+        } else if key == self.base + 1 && self.cached[1] {
+            self.s[1].as_ref()
+        } else {
+            None
+        }
+    }
+    /// what a load from disk yields
+    pub fn load(&self, key: usize) -> &KHandle<L2Table> {
+        assert!(key == self.base || key == self.base + 1, "harness bound: lookup outside the two modelled slices");
+        self.s[key - self.base].as_ref().unwrap()
+    }
+}
+
 pub(crate) struct KEnv {
+    pub l2cache: KCache,
     pub info: Qcow2Info,
     pub free_cluster_offset: AtomicU64,
     pub need_flush: AtomicBool,
@@ -187,6 +218,7 @@ pub(crate) struct KEnv {
 impl KEnv {
     pub fn new(info: Qcow2Info) -> Self {
         KEnv {
+            l2cache: KCache::empty(),
             info,
             free_cluster_offset: AtomicU64::new(0),
             need_flush: AtomicBool::new(false),
@@ -275,6 +307,43 @@ impl KEnv {
         self.rec(Rec { kind: K_DISCARD1, off: guest, ..NOREC });
         Ok(())
     }
+    pub fn k_ensure_l2_offset(&self, _split: &crate::meta::SplitGuestOffset) -> KResult<L1Entry> {
+        Ok(self.l1_entry)
+    }
+    pub fn k_get_l2_slice_slow(&self, _l1_e: &L1Entry, split: &crate::meta::SplitGuestOffset) -> KResult<&KHandle<L2Table>> {
+        Ok(self.l2cache.load(split.l2_slice_key(&self.info)))
+    }
+    pub fn k_ensure_refblock_offset(&self, _cls: &HostCluster) -> KResult<RefTableEntry> {
+        Ok(self.rt_entry)
+    }
+    /// try_alloc_from_rb_slice by CONTRACT (the postcondition the alloc-step harnesses discharge for
+    /// the real function): refuses requests crossing the slice; otherwise nothing, or a run of
+    /// 1..=count clusters (exactly count when fixed_start) inside this slice at or after `cls`
+    pub fn k_try_alloc_from_rb_slice(&self, _rt_e: &RefTableEntry, cls: &HostCluster, count: usize, fixed: bool) -> KResult<Option<(u64, usize)>> {
+        let info = &self.info;
+        let idx = cls.rb_slice_index(info);
+        let entries = info.rb_slice_entries() as usize;
+        let calls = self.count(K_TRYALLOC);
+        kani::assume(calls < 4); // harness bound: at most 4 allocator steps per request
+        if idx + count > entries {
+            self.rec(Rec { kind: K_TRYALLOC, off: 0, len: 0, ..NOREC });
+            return Ok(None);
+        }
+        let some: bool = kani::any();
+        if !some {
+            self.rec(Rec { kind: K_TRYALLOC, off: 0, len: 0, ..NOREC });
+            return Ok(None);
+        }
+        let skip: usize = kani::any();
+        let n: usize = kani::any();
+        kani::assume(n >= 1 && n <= count && skip < entries && idx + skip + n <= entries);
+        if fixed {
+            kani::assume(n == count);
+        }
+        let off = cls.rb_slice_host_start(info) + (((idx + skip) as u64) << info.cluster_bits());
+        self.rec(Rec { kind: K_TRYALLOC, off, len: n, ..NOREC });
+        Ok(Some((off, n)))
+    }
     pub fn k_get_l1_entry(&self, _split: &crate::meta::SplitGuestOffset) -> KResult<L1Entry> {
         Ok(self.l1_entry)
     }
@@ -314,6 +383,14 @@ impl KEnv {
         self.rec(Rec { kind: K_BACKEND_WRITE, off, len: buf.klen(), ..NOREC });
         if self.fail_write.get() {
             return Err(KErr);
+        }
+        Ok(())
+    }
+    /// same, with the library's own error type (for call sites that hand the error on verbatim)
+    pub fn k_call_write_q<B: KLen + ?Sized>(&self, off: u64, buf: &B) -> Qcow2Result<()> {
+        self.rec(Rec { kind: K_BACKEND_WRITE, off, len: buf.klen(), ..NOREC });
+        if self.fail_write.get() {
+            return Err(crate::error::Qcow2Error::from_desc(String::new()));
         }
         Ok(())
     }
